@@ -5,7 +5,7 @@
    (computed with the code's own arithmetic, not as the length of the text)
    and the new value of cols_used.  No proofs in this file. *)
 From Coq Require Import List ZArith Bool.
-From RtoscV Require Import Pretty.Tok Pretty.FloatFmt.
+From RtoscV Require Import Pretty.Tok Pretty.FloatFmt Pretty.TimeFmt.
 Import ListNotations.
 Local Open Scope Z_scope.
 
@@ -81,8 +81,27 @@ Definition print_rgba (v : Z) : str :=
   35 :: hex2 (v / 2 ^ 24 mod 256) ++ hex2 (v / 2 ^ 16 mod 256) ++
         hex2 (v / 2 ^ 8 mod 256) ++ hex2 (v mod 256).
 
-(* rtosc_print_arg_val for the types that neither recurse nor call libc's
-   floating point or calendar code: (text, returned count, cols_used) *)
+(* ---- time tags (calendar and fraction conversions: TimeFmt.v) ----------------------- *)
+(* case 't' of rtosc_print_arg_val: strftime with one of three formats, then
+   the fraction: the digits of "%.<prec>f" from the point on (prec at least 1)
+   and, lossless, " (...+<%a>s)" *)
+Definition print_timetag (o : popts) (t : Z) : str :=
+  if t =? 1 then kw_immediately else
+  let secs := t / 2 ^ 32 in
+  let sf := t mod 2 ^ 32 in
+  let '(y, mo, d, h, mi, se) := date_of_secs secs in
+  let date := dec_nat y ++ 45 :: d2 mo ++ 45 :: d2 d in
+  if negb (sf =? 0) || negb (se =? 0) then
+    date ++ 32 :: d2 h ++ 58 :: d2 mi ++ 58 :: d2 se ++
+    (if sf =? 0 then [] else
+       let flt := f32_to_f64 (secfracs2float sf) in
+       dropwhile (fun c => negb (c =? 46)) (fmt_f (Z.max (prec o) 1) flt) ++
+       (if lossless o then [32; 40; 46; 46; 46; 43] ++ fmt_a flt ++ [115; 41] else []))
+  else if negb (h =? 0) || negb (mi =? 0) then date ++ 32 :: d2 h ++ 58 :: d2 mi
+  else date.
+
+(* rtosc_print_arg_val for the types that do not recurse: (text, returned count,
+   cols_used) *)
 Definition print_scalar (o : popts) (v : av) (cols : Z) : option (str * Z * Z) :=
   let simple t := Some (t, len t, cols + len t) in
   match v with
@@ -105,6 +124,7 @@ Definition print_scalar (o : popts) (v : av) (cols : Z) : option (str * Z * Z) :
       simple (fmt_f (prec o) d ++ (if lossless o then [32; 40] ++ fmt_a d ++ [41] else []))
   | VD b =>
       simple (fmt_f (prec o) b ++ 100 :: (if lossless o then [32; 40] ++ fmt_a b ++ [41] else []))
+  | VTm t => simple (print_timetag o t)
   | _ => None
   end.
 
